@@ -22,6 +22,10 @@ class Unsupported(Exception):
     pass
 
 
+class NeedChoice(Exception):
+    pass
+
+
 def norm(p):
     """reduce the coefficients of a scalar polynomial modulo r"""
     out = {}
@@ -131,6 +135,8 @@ class Seg:
         if k == 'ref':
             rk = e.get('rk')
             if rk == 'param':
+                if getattr(self, 'inline_depth', 0) > 0 and e.get('id') in self.binds:
+                    return self.binds[e['id']]
                 return e['name']
             if rk == 'local':
                 b = self.binds.get(e['id'])
@@ -611,9 +617,94 @@ class Seg:
             raise Unsupported('%s at %s' % (name, loc_str(e)))
         if th is not None and name in ('encode', 'decode'):
             return None
+        if callee is not None and 'body' in callee and callee['l'][0].startswith(('src/wkdibe/', 'src/lqibe/', 'include/wkdibe/', 'include/lqibe/')) \
+                and getattr(self, 'inline_depth', 0) < 4:
+            return self.inline(callee, th, tl, args, e)
         # any other call: opaque, but it must not touch scheme objects silently
         self.calls.append((qn, [self.describe_arg(a) for a in args], loc_str(e)))
         return None
+
+    def inline(self, callee, th, tl, args, e):
+        """helpers of the scheme sources are interpreted in place; a branch on run-time data is admitted only when both arms
+        have the same effect"""
+        saved_binds, saved_fn = self.binds, self.fn
+        newb = {}
+        for p, a in zip(callee['params'], args):
+            pt = p['t'] or {}
+            if pt.get('k') == 'ref':
+                newb[p['id']] = self.loc(a)
+            elif pt.get('k') == 'ptr':
+                newb[p['id']] = self.deref(a)
+            else:
+                nm = 'H%d:%s' % (getattr(self, 'inline_depth', 0) + 1, p['name'])
+                kk = kind_of_type(pt)
+                if kk == 'int':
+                    self.store[nm] = self.ival(a)
+                elif kk in ('G1', 'G2', 'GT', 'SC'):
+                    self.store[nm] = self.val(a, kk)
+                else:
+                    raise Unsupported('helper %s takes a record by value at %s' % (callee['qn'], loc_str(e)))
+                newb[p['id']] = nm
+        self.binds = newb
+        self.fn = callee
+        self.inline_depth = getattr(self, 'inline_depth', 0) + 1
+        old_ret = self.ret
+        self.ret = None
+        try:
+            self._inline_stmt(callee['body'])
+        finally:
+            r = self.ret
+            self.binds, self.fn = saved_binds, saved_fn
+            self.inline_depth -= 1
+            self.ret = old_ret
+        return r if not (r == 'void') else None
+
+    def _inline_stmt(self, s):
+        """returns True when a return statement was executed"""
+        if s is None:
+            return False
+        k = s.get('k')
+        if k == 'compound':
+            for c in s['body']:
+                if self._inline_stmt(c):
+                    return True
+            return False
+        if k == 'constexpr_if':
+            return self._inline_stmt(s.get('taken'))
+        if k in ('expr', 'decl', 'null'):
+            self.stmt(s)
+            return False
+        if k == 'return':
+            self.stmt(s)
+            return True
+        if k == 'if':
+            d = self.decide(s['c'])
+            if d is not None:
+                return self._inline_stmt(s['then'] if d else s.get('else'))
+            # a branch on run-time data inside a helper: the driver re-runs the segment once per outcome (choice script)
+            script = getattr(self, 'script', [])
+            pos = getattr(self, 'script_pos', 0)
+            if pos >= len(script):
+                raise NeedChoice()
+            take = script[pos]
+            self.script_pos = pos + 1
+            self.helper_conds = getattr(self, 'helper_conds', []) + [(self.cond_key(s['c']), take)]
+            return self._inline_stmt(s['then'] if take else s.get('else'))
+        if k in ('for', 'while'):
+            if k == 'for' and s.get('init'):
+                self._inline_stmt(s['init'])
+            for _ in range(600):
+                d = self.decide(s['c']) if s.get('c') is not None else True
+                if d is None:
+                    raise Unsupported('helper loop on run-time data at %s' % loc_str(s))
+                if not d:
+                    return False
+                if self._inline_stmt(s['body']):
+                    return True
+                if k == 'for' and s.get('inc') is not None:
+                    self.expr(s['inc'])
+            raise Unsupported('helper loop bound at %s' % loc_str(s))
+        raise Unsupported('helper statement %s at %s' % (k, loc_str(s)))
 
     def describe_arg(self, a):
         x = strip(a)
@@ -704,7 +795,16 @@ class Seg:
 
     def scalar_op(self, name, tl, args, e):
         if name == 'copy':
-            self.write(tl, self.sval(args[0]))
+            v = self.sval(args[0])
+            # BigInt<to>::copy<from>: a narrowing copy keeps only the low bits - an opaque function of the source
+            dst_t = ((e.get('this') or {}).get('t') or {})
+            if e.get('arrow'):
+                dst_t = dst_t.get('pointee') or {}
+            src_t = (strip(args[0]).get('t') or {})
+            ds, ss = dst_t.get('size'), src_t.get('size')
+            if ds and ss and ds < ss:
+                v = ZPoly.var('low%d(%s)' % (8 * ds, repr(v)))
+            self.write(tl, v)
         elif name == 'add':
             self.write(tl, self.sval(args[0]) + self.sval(args[1]))
             return ('carry',)
@@ -745,9 +845,32 @@ def show_int(p):
     return s
 
 
-def run_path(prog, fn, g, path):
+def run_path_all(prog, fn, g, path):
+    """every outcome of the path: branches on run-time data inside inlined helpers multiply the outcomes.
+    Returns [(segment or None, conditions)]"""
+    out = []
+    work = [[]]
+    while work:
+        script = work.pop()
+        try:
+            seg, conds = run_path(prog, fn, g, path, script)
+        except NeedChoice:
+            if len(script) > 8:
+                raise Unsupported('too many run-time branches in helpers')
+            work.append(script + [True])
+            work.append(script + [False])
+            continue
+        if seg is not None:
+            conds = conds + getattr(seg, 'helper_conds', [])
+        out.append((seg, conds))
+    return out
+
+
+def run_path(prog, fn, g, path, script=None):
     """interpret the statements of one CFG path (list of (node id, label taken)); returns (segment, [(condition key, outcome)])"""
     seg = Seg(prog, fn)
+    seg.script = list(script or [])
+    seg.script_pos = 0
     conds = []
     for (nid, lab) in path:
         n = g.nodes[nid]
